@@ -588,7 +588,9 @@ func nodeType2(interp *Interpreter, sc *scope, n *node, seen []*node) (t *itype,
 		// For operators other than shift, get the type from the 2nd operand if the first is untyped.
 		if t.untyped && !isShiftNode(n) {
 			var t1 *itype
-			t1, err = nodeType2(interp, sc, n.child[1], seen)
+			if t1, err = nodeType2(interp, sc, n.child[1], seen); err != nil {
+				return nil, err
+			}
 			if !(t1.untyped && isInt(t1.TypeOf()) && isFloat(t.TypeOf())) {
 				t = t1
 			}
